@@ -49,7 +49,7 @@ def plan(tier, seed):
 def floors(tier):
     return {"distinct_nontrivial": 200, "unwind.close": 200, "unwind.exc": 50, "op:full": 500, "op:take": 100,
             "op:abandon": 100, "op:drop": 100, "op:boom_raised": 50, "op:the": 50, "cls:dup_domain": 50,
-            "cls:caching_off": 100, "cache.check.hit": 500, "cls:ruletree_history": 100, "cls:shared_expression_pool": 60, "cls:twin:nexttree": 30, "cls:twin:kwvar": 30, "cls:variable_whose_domain_has_no_instance": 60, "cls:twin:concat": 25, "cls:twin:flatsub": 25, "cls:twin:sharedconc": 20, "cls:twin:blockstyle": 20, "cls:twin:ix": 40}
+            "cls:caching_off": 100, "cache.check.hit": 500, "cls:ruletree_history": 100, "cls:shared_expression_pool": 60, "cls:twin:nexttree": 30, "cls:twin:kwvar": 30, "cls:variable_whose_domain_has_no_instance": 60, "cls:twin:concat": 25, "cls:twin:flatsub": 25, "cls:twin:sharedconc": 20, "cls:twin:blockstyle": 20, "cls:twin:shareddomain": 40, "cls:twin:ix": 40}
 
 
 def cases(spec, ctx):
@@ -63,7 +63,7 @@ def cases(spec, ctx):
             for _ in range(rng.randint(2, 6)):
                 kind = rng.choice(["full", "full", "take", "abandon", "drop"])
                 ops.append([kind, 0] if kind == "full" else [kind, 0, rng.randint(1, 3)])
-            twin = rng.choice(["nexttree", "kwvar", "concat", "flatsub", "sharedconc", "blockstyle", "ix", "ix"])
+            twin = rng.choice(["nexttree", "kwvar", "concat", "flatsub", "sharedconc", "blockstyle", "ix", "ix", "shareddomain", "shareddomain"])
             if twin == "kwvar":
                 # an iterator that is kept alive but never advanced again is beyond the quantifier ("take k results then
                 # close"): a keyword-constrained variable marks itself while its constraints are being evaluated and a
@@ -479,10 +479,51 @@ def check_sharedconc_case(case, ctx):
     ctx.sample({"shape": "sharedconc", "history_log": log})
 
 
+def check_shareddomain_case(case, ctx):
+    """ONE sub-query (with alternatives) is the domain of the variables of two queries: sub = an(entity(y, or_(...)));
+    x1 = let(N, domain=sub); x2 = let(N, domain=sub).  Whatever was evaluated (or abandoned) before, each query answers as it
+    does alone; one query at a time (the two never run interleaved)"""
+    from entity_query_language import symbolic_mode, an, entity, let, or_
+    from entity_query_language.cache_data import enable_caching, disable_caching
+    from . import c12
+    ctx.cls("cls:twin:shareddomain")
+    objs = [c12.N(*v) for v in case["data"]]
+    idx = {id(o): i for i, o in enumerate(objs)}
+    (a1, t1), (a2, t2) = case["conds"]
+    with symbolic_mode():
+        y = let(c12.N, objs)
+        sub = an(entity(y, or_(getattr(y, a1) > t1, getattr(y, a2) == t2)))
+        x1 = let(c12.N, domain=sub)
+        x2 = let(c12.N, domain=sub)
+        queries = [an(entity(x1, x1.c > 0)), an(entity(x2, 0 < x2.b))]
+    in_sub = [o for o in objs if getattr(o, a1) > t1 or getattr(o, a2) == t2]
+    want = [sorted(idx[id(o)] for o in in_sub if o.c > 0), sorted(idx[id(o)] for o in in_sub if 0 < o.b)]
+    (enable_caching if case["caching"] else disable_caching)()
+    log = []
+    try:
+        for step, op in enumerate(list(case["ops"]) + [["full", 0], ["full", 0], ["full", 0]]):
+            qi = (step + len(op)) % 2 if step else 0
+            # (complete evaluations only: a partly consumed domain keeps a suspended evaluation of the shared sub-query, and a second
+            #  variable over it would run interleaved with that one - two evaluations of shared expressions at once, DESIGN 7)
+            got = sorted(idx.get(id(o), -1) for o in queries[qi].evaluate())
+            log.append([qi, len(got)])
+            if got != want[qi]:
+                ctx.fail("DIFFERS_FROM_EVALUATION_ALONE", {"history_log": log, "query": qi, "expected": want[qi],
+                                                           "observed": got, "shape": "shareddomain"})
+                return
+        if 0 < len(in_sub) < len(objs) and any(getattr(o, a1) <= t1 for o in in_sub):
+            ctx.nontrivial()
+    finally:
+        enable_caching()
+    ctx.sample({"shape": "shareddomain", "history_log": log})
+
+
 def check_twin_case(case, ctx):
     from collections import Counter as _Counter
     if case["twin"] == "sharedconc":
         return check_sharedconc_case(case, ctx)
+    if case["twin"] == "shareddomain":
+        return check_shareddomain_case(case, ctx)
     from entity_query_language.cache_data import enable_caching, disable_caching
     ctx.cls("cls:twin:" + case["twin"])
     (enable_caching if case["caching"] else disable_caching)()
